@@ -55,7 +55,6 @@ MUTANTS["C04"] = [
     M("rhs-counter-outside-guard", "codegen/base.py", "                values_lst.append(self._doprint(values_idx[index], x.symbol))\n                index += 1\n\n        values = \"\\n\".join(values_lst)\n        code = self.template.method(\n            name=\"rhs\"", "                values_lst.append(self._doprint(values_idx[index], x.symbol))\n            index += 1\n\n        values = \"\\n\".join(values_lst)\n        code = self.template.method(\n            name=\"rhs\"", "R04.a"),
     M("sort-reduced-set", "ode.py", "        names = sort_assignments(\n            assignments=self.intermediates + self.state_derivatives,", "        intermediates = self.intermediates\n        if remove_unused:\n            intermediates = tuple([a for a in intermediates if a.name in self.dependents()])\n        names = sort_assignments(\n            assignments=intermediates + self.state_derivatives,", "R04.a"),
     M("init-names-from-name-sorted", "codegen/base.py", "state_names=[s.name for s in self.ode.sorted_states()],", "state_names=[s.name for s in self.ode.states],", "R04.a"),
-    M("states-matrix-name-sorted", "sympytools.py", "sympy.Matrix([state.symbol for state in ode.sorted_states()])", "sympy.Matrix([state.symbol for state in ode.states])", "R04.a"),
     M("index-dict-swapped", "codegen/base.py", "data={s.name: i for i, s in enumerate(self.ode.parameters)}", "data={i: s.name for i, s in enumerate(self.ode.parameters)}", "R04.a2"),
     M("state-index-calls-parameter-template", "codegen/base.py", "        code = self.template.state_index(\n", "        code = self.template.parameter_index(\n", "*"),
     M("c-unknown-returns-0", "templates/c.py", 'indent("return -1;", "    ")', 'indent("return 0;", "    ")', "R04.b"),
@@ -109,7 +108,136 @@ MUTANTS["C20"] = [
     M("rhs-matrix-name-sorted", "sympytools.py", "sympy.Matrix([state.expr for state in ode.sorted_state_derivatives()])", "sympy.Matrix([state.expr for state in ode.state_derivatives])", "R20.a"),
     M("constant-bound", "sympytools.py", "def rhs_matrix(ode, max_tries: int | None = None)", "def rhs_matrix(ode, max_tries: int | None = 20)", "R20.b"),
     M("raise-on-count", "sympytools.py", "    if has_intermediates(rhs):\n        raise RuntimeError", "    if num_tries == max_tries:\n        raise RuntimeError", "R20.b"),
-    M("partial-map", "sympytools.py", "intermediates = {x.symbol: x.expr for x in ode.intermediates}", "intermediates = {x.symbol: x.expr for x in ode.intermediates if x.expr.free_symbols}", "R20.b"),
+    M("partial-map", "sympytools.py", "intermediates = {x.symbol: x.expr for x in ode.intermediates + ode.state_derivatives}", "intermediates = {x.symbol: x.expr for x in ode.intermediates + ode.state_derivatives if x.expr.free_symbols}", "R20.b"),
+    M("states-matrix-name-sorted", "sympytools.py", "sympy.Matrix([state.symbol for state in ode.sorted_states()])", "sympy.Matrix([state.symbol for state in ode.states])", "R20.a"),
     M("jacobi-constant-bound", "sympytools.py", "    return rhs_matrix(ode).jacobian(states_matrix(ode))", "    return rhs_matrix(ode, max_tries=20).jacobian(states_matrix(ode))", "R20.b"),
     M("jacobian-wrt-name-sorted", "sympytools.py", "    return rhs_matrix(ode).jacobian(states_matrix(ode))", "    return rhs_matrix(ode).jacobian(sympy.Matrix([s.symbol for s in ode.states]))", "R20.c"),
+]
+
+MUTANTS["C01"] = [
+    M("minus-swapped", "expressions.py", "return sp.Add(fst, sp.Mul(sp.Integer(-1), snd, evaluate=False), evaluate=False)", "return sp.Add(snd, sp.Mul(sp.Integer(-1), fst, evaluate=False), evaluate=False)", "R01.a"),
+    M("division-no-inverse", "expressions.py", "return sp.Mul(fst, sp.Pow(snd, sp.Integer(-1), evaluate=False), evaluate=False)", "return sp.Mul(fst, sp.Pow(snd, sp.Integer(1), evaluate=False), evaluate=False)", "R01.a"),
+    M("unary-minus-identity", "expressions.py", "        return sp.Mul(sp.Integer(-1), arg, evaluate=False)\n    if op == \"+\":", "        return arg\n    if op == \"+\":", "R01.a"),
+    M("tilde-accepted", "expressions.py", "    if op == \"+\":\n        return arg\n", "    if op == \"+\" or op == \"~\":\n        return arg\n", "R01.a"),
+    M("fold-operands-swapped", "expressions.py", "                    fst,\n                    expr2symbols(tree.children[i + 1]),", "                    expr2symbols(tree.children[i + 1]),\n                    fst,", "R01.b"),
+    M("power-swapped", "expressions.py", "                expr2symbols(tree.children[0]),\n                expr2symbols(tree.children[1]),\n            )\n\n        if tree.data == \"variable\":", "                expr2symbols(tree.children[1]),\n                expr2symbols(tree.children[0]),\n            )\n\n        if tree.data == \"variable\":", "R01.b"),
+    M("power-left-assoc", "ode.lark", '?power: signedatom ("**" factor)?', '?power: signedatom ("**" signedatom)*', "R01.c"),
+    M("mul-below-add", "ode.lark", '!_add_op: "+"|"-"\n!_mul_op: "*"|"/"', '!_add_op: "*"|"/"\n!_mul_op: "+"|"-"', "R01.c"),
+    M("conditional-branches-swapped", "expressions.py", "                    true_value=expr2symbols(tree.children[2]),\n                    false_value=expr2symbols(tree.children[3]),\n                )\n\n            elif", "                    true_value=expr2symbols(tree.children[3]),\n                    false_value=expr2symbols(tree.children[2]),\n                )\n\n            elif", "R01.d"),
+    M("abs-mapping-lost", "expressions.py", '                funcname = "Abs"', '                funcname = "sign"', "R01.d"),
+    M("pi-case-insensitive", "expressions.py", 'if tree.children[0] == "pi":', 'if tree.children[0].lower() == "pi":', "R01.d"),
+    M("piecewise-pairs-swapped", "sympytools.py", "        (true_value, cond),\n        (false_value, sympy.sympify(True)),", "        (false_value, cond),\n        (true_value, sympy.sympify(True)),", "R01.e"),
+    M("continuous-weights-swapped", "sympytools.py", "        return true_value * (1 - H) + false_value * H\n", "        return true_value * H + false_value * (1 - H)\n", "R01.e"),
+    M("continuous-branch-test", "sympytools.py", '    if ">" in cond.rel_op:\n        return', "    if isinstance(cond, sympy.GreaterThan):\n        return", "R01.e"),
+    M("sorter-edge-reversed", "ode.py", "sorter.add(assignment.name, *sorted(assignment.value.dependencies))", "[sorter.add(d, assignment.name) for d in sorted(assignment.value.dependencies)]", "R01.f"),
+    M("store-before-definition", "codegen/base.py", "            values_lst.append(self._doprint(x.symbol, x.expr, use_variable_prefix=True))\n            if isinstance(x, atoms.StateDerivative):\n                values_lst.append(self._doprint(values_idx[index], x.symbol))\n                index += 1\n\n        values = \"\\n\".join(values_lst)\n        code = self.template.method(\n            name=\"rhs\"", "            if isinstance(x, atoms.StateDerivative):\n                values_lst.append(self._doprint(values_idx[index], x.symbol))\n                index += 1\n            values_lst.append(self._doprint(x.symbol, x.expr, use_variable_prefix=True))\n\n        values = \"\\n\".join(values_lst)\n        code = self.template.method(\n            name=\"rhs\"", "R01.f"),
+    M("time-alias-dropped", "ode.py", '    symbols["time"] = t\n    symbols["t"] = t\n', '    symbols["t"] = t\n', "R01.g"),
+    M("float-precision", "codegen/python.py", "        return self._print(str(float(flt)))\n\n    def _print_Piecewise", "        return self._print(f\"{float(flt):.6g}\")\n\n    def _print_Piecewise", "R01.h"),
+    M("and-printed-as-or", "codegen/python.py", 'return self._print_nested("numpy.logical_and", expr)', 'return self._print_nested("numpy.logical_or", expr)', "R01.h"),
+    M("where-override-removed", "codegen/python.py", "    def _print_Piecewise(self, expr):\n        result = []\n", "    def _print_Piecewise_disabled(self, expr):\n        result = []\n", "R01.h"),
+    M("where-closing-count", "codegen/python.py", '            result.append(")" * (len(conds) - 1))', '            result.append(")" * len(conds))', "R01.h"),
+    M("slot-order-name-sorted", "codegen/base.py", "        for x in self.ode.sorted_assignments(remove_unused=self.remove_unused):\n            values_lst.append", "        for x in self.ode.intermediates + self.ode.state_derivatives:\n            values_lst.append", "R01.i"),
+]
+MUTANTS["C02"] = [
+    M("mod-single-fmod", "codegen/c.py", 'return f"fmod(fmod({num}, {den}) + ({den}), {den})"', 'return f"fmod({num}, {den})"', "R02.b"),
+    M("mod-shifted", "codegen/c.py", 'return f"fmod(fmod({num}, {den}) + ({den}), {den})"', 'return f"fmod(({num}) + ({den}), {den})"', "R02.b"),
+    M("mod-override-removed", "codegen/c.py", "    def _print_Mod(self, expr):", "    def _print_Mod_disabled(self, expr):", "R02.a"),
+    M("float-override-removed", "codegen/c.py", "    def _print_Float(self, flt):\n        return self._print(str(float(flt)))\n\n    def _print_Mod", "    def _print_Float_disabled(self, flt):\n        return self._print(str(float(flt)))\n\n    def _print_Mod", "R02.a"),
+    M("bool-regex-precedence", "codegen/c.py", 'return re.sub(r"\\btrue\\b", "1", re.sub(r"\\bfalse\\b", "0", expr))', 'return re.sub(r"\\btrue|false\\b", lambda m: "1" if m.group() == "true" else "0", expr)', "R02.c"),
+    M("bool-str-replace", "codegen/c.py", 'return re.sub(r"\\btrue\\b", "1", re.sub(r"\\bfalse\\b", "0", expr))', 'return expr.replace("false", "0").replace("true", "1")', "R02.c"),
+    M("c-index-unknown-0", "templates/c.py", 'indent("return -1;", "    ")', 'indent("return 0;", "    ")', "R02.d"),
+    M("num-monitored", "cli/gotran2c.py", "{ len(ode.state_derivatives) + len(ode.intermediates)}", "{ len(ode.intermediates)}", "R02.d"),
+    M("c-locals-not-double", "codegen/c.py", 'variable_prefix = "const double "', 'variable_prefix = "const int "', "R02.d"),
+    M("c-monitor-filtered", "codegen/base.py", "        for x in self.ode.sorted_assignments(remove_unused=False):\n            values_lst.append(self._doprint(x.symbol, x.expr, use_variable_prefix=True))\n            if isinstance(x, (atoms.Intermediate, atoms.StateDerivative)):", "        for x in self.ode.sorted_assignments(remove_unused=self.remove_unused):\n            values_lst.append(self._doprint(x.symbol, x.expr, use_variable_prefix=True))\n            if isinstance(x, (atoms.Intermediate, atoms.StateDerivative)):", "R02.e"),
+]
+MUTANTS["C03"] = [
+    M("monitor-arity-states", "codegen/base.py", "            return_name=rhs.return_name,\n            num_return_values=int(shape),\n            shape_info=shape_info,\n            values_type=\"numpy.zeros(shape)\",\n            missing_variables=missing_variables,\n        )\n\n        return self._format(code)\n\n    def missing_values", "            return_name=rhs.return_name,\n            num_return_values=rhs.num_return_values,\n            shape_info=shape_info,\n            values_type=\"numpy.zeros(shape)\",\n            missing_variables=missing_variables,\n        )\n\n        return self._format(code)\n\n    def missing_values", "R03.a"),
+    M("jax-return-short", "templates/jax.py", "for i in range(num_return_values)]", "for i in range(num_return_values - 1)]", "R03.a"),
+    M("jax-rewrite-other-base", "codegen/jax.py", 'if sym.base.name == "values":', 'if sym.base.name == "states":', "R03.a"),
+    M("jax-inplace-store", "templates/jax.py", "        {name} = {name}.at[state_index(key)].set(value)", "        {name}[state_index(key)] = value", "R03.a"),
+    M("jax-reduce", "codegen/python.py", "        return reduce(\n            lambda acc, arg: f\"{func}({acc}, {arg})\",\n            [self._print(arg) for arg in expr.args],\n        )", "        args = \", \".join(self._print(arg) for arg in expr.args)\n        return f\"{func}.reduce(({args}))\"", "R03.b"),
+    M("jax-pairwise-drops-operand", "codegen/python.py", "        return reduce(\n            lambda acc, arg: f\"{func}({acc}, {arg})\",\n            [self._print(arg) for arg in expr.args],\n        )", "        args = [self._print(arg) for arg in expr.args]\n        while len(args) > 1:\n            args = [f\"{func}({a}, {b})\" for a, b in zip(args[::2], args[1::2])]\n        return args[0]", "R03.b"),
+    M("jax-sign-copysign", "codegen/python.py", 'f=self._module_format("numpy.sign")', 'f=self._module_format("numpy.lib.scimath.sign")', "R03.b"),
+]
+MUTANTS["C08"] = [
+    M("registry-per-block", "transformer.py", "        comments = []\n        definitions: dict[str, atoms.Atom] = {}\n        for line in s:  # Each line in the block\n", "        comments = []\n        for line in s:  # Each line in the block\n            definitions: dict[str, atoms.Atom] = {}\n", "R08.a"),
+    M("redefinition-equal-ok", "transformer.py", "                if previous is not atom:\n                    raise", "                if previous is not atom and previous != atom:\n                    raise", "R08.a"),
+    M("derivatives-not-recorded", "ode.py", '            symbol_values[st.name].add(("state_derivative", st.expr))\n', "", "R08.a"),
+    M("kind-tag-dropped", "ode.py", 'symbol_values[s.name].add(("state", s.value))', 'symbol_values[s.name].add(("parameter", s.value))', "R08.a"),
+    M("predicate-more-than-two", "ode.py", "        if any(x > 1 for x in map(len, symbol_values.values())):\n            raise exceptions.DuplicateSymbolError(\n                set(k for k, v in symbol_values.items() if len(v) > 1)\n            )\n\n        t = sp.Symbol", "        if any(x > 2 for x in map(len, symbol_values.values())):\n            raise exceptions.DuplicateSymbolError(\n                set(k for k, v in symbol_values.items() if len(v) > 1)\n            )\n\n        t = sp.Symbol", "R08.a"),
+    M("skip-empty-components", "ode.py", "    for comp in components:\n        if not comp.is_complete():", "    for comp in components:\n        if not comp.state_derivatives:\n            continue\n        if not comp.is_complete():", "R08.b"),
+    M("orphan-derivative-bypass", "ode_component.py", "if state_name := STATE_DERIV_EXPR.match(assignment.name):", "if self.states and (state_name := STATE_DERIV_EXPR.match(assignment.name)):", "R08.b"),
+    M("check-components-dropped", "ode.py", "        check_components(components)\n        _, symbol_values, symbols, lookup = gather_atoms(components=components)\n\n        if any", "        _, symbol_values, symbols, lookup = gather_atoms(components=components)\n\n        if any", "R08.b"),
+    M("lookup-with-default", "expressions.py", "                return symbols_[str(tree.children[0])]", "                return symbols_.get(str(tree.children[0])) or sp.Symbol(str(tree.children[0]))", "R08.c"),
+    M("cycle-swallowed", "ode.py", "    static_order = tuple(sorter.static_order())\n", "    try:\n        static_order = tuple(sorter.static_order())\n    except Exception:\n        static_order = tuple(sorted(assignment_names))\n", "R08.c"),
+]
+MUTANTS["C11"] = [
+    M("ge-written-as-gt", "codegen/ode.py", '            ">=": "Ge",', '            ">=": "Gt",', "R11.a"),
+    M("ne-table", "codegen/ode.py", '        if expr.rel_op == "!=":\n            # There is no \'Ne\' in the grammar\n            return f"Not(Eq({lhs}, {rhs}))"\n', '        if expr.rel_op == "!=":\n            return f"Ne({lhs}, {rhs})"\n', "R11.a"),
+    M("exp1-override-removed", "codegen/ode.py", "    def _print_Exp1(self, expr):", "    def _print_Exp1_disabled(self, expr):", "R11.a"),
+    M("not-override-removed", "codegen/ode.py", "    def _print_Not(self, expr):", "    def _print_Not_disabled(self, expr):", "R11.a"),
+    M("and-first-two", "codegen/ode.py", "        return f\"And({', '.join(self._print(a) for a in expr.args)})\"", "        lhs, rhs = expr.args[:2]\n        return f\"And({self._print(lhs)}, {self._print(rhs)})\"", "R11.a"),
+    M("or-infix", "codegen/ode.py", "        return f\"Or({', '.join(self._print(a) for a in expr.args)})\"", "        return ' | '.join(self._print(a) for a in expr.args)", "R11.a"),
+    M("reader-binary-only", "expressions.py", "            return getattr(sp, tree.children[0])(\n                *[expr2symbols(c) for c in tree.children[1:]],\n            )", "            return getattr(sp, tree.children[0])(\n                *[expr2symbols(c) for c in tree.children[1:3]],\n            )", "R11.a"),
+    M("sides-swapped", "codegen/ode.py", "        lhs = self._print(expr.lhs)\n        rhs = self._print(expr.rhs)", "        lhs = self._print(expr.rhs)\n        rhs = self._print(expr.lhs)", "R11.a"),
+    M("derivatives-not-saved", "codegen/ode.py", "for i in self.ode.intermediates + self.ode.state_derivatives:", "for i in self.ode.intermediates:", "R11.b"),
+    M("value-rstrip", "codegen/ode.py", 'ret = f"{p.name}={doprint(p.value)}"  # type: ignore', 'ret = f"{p.name}={doprint(p.value).rstrip(\'0\')}"  # type: ignore', "R11.b"),
+    M("unit-dropped", "codegen/ode.py", "unit_str = \"\" if p.unit_str is None else f'unit=\"{p.unit_str}\"'", "unit_str = \"\"", "R11.b"),
+    M("parameters-section-dropped", "save.py", "    text.append(printer.print_parameters())\n", "", "R11.b"),
+    M("headerless-last", "codegen/ode.py", "        ordered = {c: d[c] for c in no_component + [c for c in d if c not in no_component]}", "        ordered = dict(d)", "R11.b"),
+]
+MUTANTS["C13"] = [
+    M("t-is-missing", "ode.py", 'symbols = set(self.symbols.keys()) | {"t"}', "symbols = set(self.symbols.keys())", "R13.a"),
+    M("missing-unsorted-numbering", "ode.py", "return {var: i for i, var in enumerate(sorted(variable_names))}", "return {var: i for i, var in enumerate(variable_names)}", "R13.a"),
+    M("scheme-no-formal", "codegen/base.py", "        arguments = rhs.arguments\n        if self._missing_variables:\n            arguments += [\"missing_variables\"]\n\n        dt = sympy.Symbol", "        arguments = rhs.arguments\n\n        dt = sympy.Symbol", "R13.b"),
+    M("monitor-no-block", "codegen/base.py", "            shape_info=shape_info,\n            values_type=\"numpy.zeros(shape)\",\n            missing_variables=missing_variables,\n        )\n\n        return self._format(code)\n\n    def missing_values", "            shape_info=shape_info,\n            values_type=\"numpy.zeros(shape)\",\n            missing_variables=\"\",\n        )\n\n        return self._format(code)\n\n    def missing_values", "R13.b"),
+    M("jax-template-no-splice", "templates/jax.py", "{indent_parameters}\n{indent_missing_variables}\n", "{indent_parameters}\n", "R13.b"),
+    M("missing-values-filtered", "codegen/base.py", "        for x in self.ode.sorted_assignments(remove_unused=False):\n            values_lst.append(self._doprint(x.symbol, x.expr, use_variable_prefix=True))\n            if x.name in values:", "        for x in self.ode.sorted_assignments(remove_unused=self.remove_unused):\n            values_lst.append(self._doprint(x.symbol, x.expr, use_variable_prefix=True))\n            if x.name in values:", "R13.c"),
+    M("break-before-store", "codegen/base.py", "            if x.name in values:\n                values_lst.append(self._doprint(values_idx[values[x.name]], x.symbol))\n                n += 1\n            if n >= N:\n                break", "            if n >= N:\n                break\n            if x.name in values:\n                values_lst.append(self._doprint(values_idx[values[x.name]], x.symbol))\n                n += 1", "R13.c"),
+    M("states-only", "codegen/base.py", "for p in self.ode.states + self.ode.parameters:", "for p in self.ode.states:", "R13.c"),
+    M("sub-keeps-other", "ode.py", "new_components = [comp for comp in self.components if comp != other]", "new_components = [comp for comp in self.components if comp == other]", "R13.d"),
+]
+MUTANTS["C14"] = [
+    M("sign-scalar", "codegen/python.py", 'return "{f}({e})".format(f=self._module_format("numpy.sign"), e=self._print(e.args[0]))', 'return "(0.0 if ({e} == 0) else {f}(1, {e}))".format(f=self._module_format("numpy.copysign"), e=self._print(e.args[0]))', "R14.a"),
+    M("sign-allclose", "codegen/python.py", 'return "{f}({e})".format(f=self._module_format("numpy.sign"), e=self._print(e.args[0]))', 'return "numpy.where(numpy.allclose({e}, 0), 0.0, {f}({e}))".format(f=self._module_format("numpy.sign"), e=self._print(e.args[0]))', "R14.a"),
+    M("and-numpy-all", "codegen/python.py", "    def _print_And(self, expr):\n        return self._print_nested(\"numpy.logical_and\", expr)", "    def _print_And(self, expr):\n        args = \", \".join(self._print(arg) for arg in expr.args)\n        return f\"numpy.all(({args}))\"", "R14.a"),
+    M("and-python-and", "codegen/python.py", "    def _print_And(self, expr):\n        return self._print_nested(\"numpy.logical_and\", expr)", "    def _print_And(self, expr):\n        return \" and \".join(self._print(arg) for arg in expr.args)", "R14.a"),
+    M("where-override-removed", "codegen/python.py", "    def _print_Piecewise(self, expr):\n        result = []\n", "    def _print_Piecewise_disabled(self, expr):\n        result = []\n", "R14.a"),
+    M("kf-math", "codegen/python.py", "**{k: f\"numpy.{v.replace('math.', '')}\" for k, v in PythonCodePrinter._kf.items()},", "**{k: v for k, v in PythonCodePrinter._kf.items()},", "R14.a"),
+    M("simplify-dropped", "codegen/base.py", "    expr = sympy.simplify(expr)\n\n    exprs =", "    exprs =", "R14.a"),
+    M("multiple-shape-axis", "codegen/base.py", 'return f"shape = ({shape}, states.shape[1])"', 'return f"shape = ({shape}, states.shape[0])"', "R14.b"),
+    M("dynamic-shape-len", "codegen/base.py", "if len(states.shape) == 1 else", "if len(states.shape) == 2 else", "R14.b"),
+    M("zeros-like-parameters", "codegen/python.py", 'values_type="numpy.zeros_like(states, dtype=numpy.float64)",\n        )\n\n    def _scheme_arguments', 'values_type="numpy.zeros_like(parameters, dtype=numpy.float64)",\n        )\n\n    def _scheme_arguments', "R14.b"),
+]
+MUTANTS["C15"] = [
+    M("initial-values-by-position", "myokit.py", "value=initial_values[var.index()],", "value=next(initial_iter),", "R15.b"),
+    M("rename-one-site", "myokit.py", "            name = var.uname()\n            if name in reserved_names:\n                name = f\"{name}_\"\n\n            if name == \"time\":", "            name = var.uname()\n\n            if name == \"time\":", "R15.a"),
+    M("reserved-narrowed", "myokit.py", 'reserved_names = {name for name in dir(sp) if not name.startswith("_")}', 'reserved_names = {name for name in dir(sp) if not name.startswith("_") and callable(getattr(sp, name))}', "R15.a"),
+    M("chain-order", "myokit.py", "                        expr = expr.xreplace(component_subs.get(component.name(), {}))\n                        expr = expr.xreplace(all_subs)\n\n                    intermediate", "                        expr = expr.xreplace(all_subs)\n                        expr = expr.xreplace(component_subs.get(component.name(), {}))\n\n                    intermediate", "R15.b"),
+    M("export-intermediates-unregistered", "myokit.py", "            global_var_map[sp.Symbol(intermediate.name)] = sp.Symbol(var.qname())\n", "", "R15.c"),
+]
+MUTANTS["C16"] = [
+    M("infinite-three-valued", "atoms.py", "return self.replacement.has(sp.oo) or self.replacement.has(-sp.oo)", "return not sp.sympify(self.replacement).is_finite", "R16.b"),
+    M("search-breaks", "atoms.py", "            if not values:\n                continue\n", "            if not values:\n                break\n", "R16.b"),
+    M("component-lookup", "ode.py", "new_components.append(component.remove_singularities(self._lookup))", "new_components.append(component.remove_singularities({a.name: a for a in component.atoms}))", "R16.b"),
+    M("infinite-not-skipped", "atoms.py", "        for singularity in singularities\n        if not singularity.is_infinite\n", "        for singularity in singularities\n", "R16.b"),
+    M("limit-at-zero", "atoms.py", "replacement=limit(self.expr, var.symbol, value),", "replacement=limit(self.expr, var.symbol, 0),", "R16.b"),
+    M("condition-on-other-symbol", "atoms.py", "cond=sp.Eq(singularity.symbol, singularity.value),", "cond=sp.Eq(singularity.value, 0),", "R16.b"),
+]
+MUTANTS["C17"] = [
+    M("narrow-handler", "transformer.py", "            except Exception:\n                # Not a proper unit so it's a comment.", "            except (units.pint.UndefinedUnitError, AttributeError):\n                # Not a proper unit so it's a comment.", "R17.a"),
+    M("comment-sympified", "transformer.py", "        return atoms.Comment(\" \".join(map(str.lstrip, map(lambda x: x.lstrip(\"#\"), map(str, s)))))", "        text = \" \".join(map(str.lstrip, map(lambda x: x.lstrip(\"#\"), map(str, s))))\n        import sympy\n        sympy.sympify(text)\n        return atoms.Comment(text)", "*"),
+    M("redos-regex", "ode_component.py", 'STATE_DERIV_EXPR = re.compile(r"^d(?P<state>\\w+)_dt$")', 'STATE_DERIV_EXPR = re.compile(r"^d(?P<state>(\\w+)+)_dt$")', "R17.a"),
+    M("comment-two-tokens", "ode.lark", "comment : COMMENT+", 'comment : ("#" /.+/)+', "R17.b"),
+    M("block-only-assignments", "ode.lark", '    | "expressions" "(" COMPONENT_NAME ("," COMPONENT_NAME)* ")" (assignment | comment | NEWLINE)+', '    | "expressions" "(" COMPONENT_NAME ("," COMPONENT_NAME)* ")" (assignment)+', "R17.b"),
+    M("ws-not-ignored", "ode.lark", "%ignore WS\n", "", "R17.b"),
+    M("codegen-reads-unit", "codegen/base.py", "            values_lst.append(self._doprint(x.symbol, x.expr, use_variable_prefix=True))\n            if isinstance(x, atoms.StateDerivative):", "            values_lst.append(self._doprint(x.symbol, x.expr if x.unit_str != \"mV\" else 1000 * x.expr, use_variable_prefix=True))\n            if isinstance(x, atoms.StateDerivative):", "R17.c"),
+    M("scheme-reads-comment", "schemes.py", "        if isinstance(x, atoms.StateDerivative):\n            eqs.append(", "        if isinstance(x, atoms.StateDerivative) and x.comment is None:\n            eqs.append(", "R17.c"),
+]
+MUTANTS["C19"] = [
+    M("bool-regex-precedence", "codegen/c.py", 'return re.sub(r"\\btrue\\b", "1", re.sub(r"\\bfalse\\b", "0", expr))', 'return re.sub(r"\\btrue|false\\b", lambda m: "1" if m.group() == "true" else "0", expr)', "R19.b"),
+    M("pi-case-insensitive", "ode.lark", 'PI: "pi"\n', 'PI: "pi"i\n', "R19.d"),
+    M("myokit-rename-suffix", "myokit.py", "            name = var.uname()\n            if name in reserved_names:\n                name = f\"{name}_\"\n\n            component_subs", "            name = var.uname()\n            if name in reserved_names:\n                name = f\"_{name}\"\n\n            component_subs", "R19.c"),
+    M("lhs-not-printed", "codegen/python.py", "            lhs = super()._print(expr.args[0][0].lhs)\n            result.append(f\"{super()._print(lhs)} = \")", "            lhs = expr.args[0][0].lhs\n            result.append(f\"{lhs} = \")", "R19.e"),
+    M("partial-guard", "ode.py", "T = TypeVar(\"T\")\n", "T = TypeVar(\"T\")\nRESERVED = {\"dt\", \"states\", \"parameters\", \"values\", \"numpy\"}\n", "R19.a"),
 ]
